@@ -53,7 +53,8 @@ func (store *Store) Has(ctx context.Context, key string) (bool, error) {
 // Note that this internally performs a defensive copy;
 // use Peek for higher performance if you are certain you won't mutate the returned slice.
 func (store *Store) Get(ctx context.Context, key string) ([]byte, error) {
-	store.beInitialized()
+	// (No beInitialized here: reading a nil map is fine, and a read must not write to a store
+	// that other goroutines may be reading.)
 	content, exists := store.Bag[key]
 	if !exists {
 		return nil, fmt.Errorf("404") // FIXME this needs a standard error type
